@@ -749,10 +749,79 @@ def pem_header_variants(rng, text):
     return out
 
 
+def der_len(n):
+    if n < 128:
+        return bytes([n])
+    b = n.to_bytes((n.bit_length() + 7) // 8, 'big')
+    return bytes([0x80 | len(b)]) + b
+
+
+def der_tlv(tag, content):
+    return bytes([tag]) + der_len(len(content)) + content
+
+
+def nested_der(depth, tags, inner=b'\x02\x01\x00'):
+    """inner wrapped in [depth] constructed values, tags taken in turn from [tags]"""
+    d = inner
+    for i in range(depth):
+        d = der_tlv(tags[i % len(tags)], d)
+    return d
+
+
+def pem_block(name, der):
+    b = base64.b64encode(der)
+    return b'-----BEGIN ' + name + b'-----\n' + b'\n'.join(b[i:i + 64] for i in range(0, len(b), 64)) + \
+        b'\n-----END ' + name + b'-----\n'
+
+
+PEM_TYPES = [b'PRIVATE KEY', b'RSA PRIVATE KEY', b'EC PRIVATE KEY', b'DSA PRIVATE KEY', b'ENCRYPTED PRIVATE KEY',
+             b'PUBLIC KEY', b'RSA PUBLIC KEY', b'CERTIFICATE', b'X509 CERTIFICATE', b'TRUSTED CERTIFICATE',
+             b'OPENSSH PRIVATE KEY', b'SSH2 PUBLIC KEY']
+DEPTHS = [100, 450, 600, 1500, 5000]
+RSA_OID = bytes.fromhex('06092a864886f70d010101')
+PBES2_OID = bytes.fromhex('06092a864886f70d01050d')
+
+
+def deep_der_inputs():
+    """deeply nested DER in every container the import functions accept -> [(label, bytes)]"""
+    out = []
+    shapes = {'seq': [0x30], 'set': [0x31], 'ctx': [0xa0], 'app': [0x60], 'mixed': [0x30, 0xa0, 0x31, 0xa3]}
+    for depth in DEPTHS:
+        for sname, tags in shapes.items():
+            if sname in ('set', 'app') and depth not in (600, 1500):
+                continue
+            d = nested_der(depth, tags)
+            seq = d if d[0] == 0x30 else der_tlv(0x30, d)
+            out.append(('raw %s depth %d' % (sname, depth), d))
+            if d[0] != 0x30:
+                out.append(('raw seq{%s} depth %d' % (sname, depth), seq))
+            if sname in ('seq', 'mixed'):
+                for name in PEM_TYPES:
+                    out.append(('PEM %s %s depth %d' % (name.decode(), sname, depth), pem_block(name, seq)))
+                # TRUSTED CERTIFICATE: a certificate followed by trust data
+                out.append(('PEM TRUSTED CERTIFICATE seq+trailer depth %d' % depth,
+                            pem_block(b'TRUSTED CERTIFICATE', seq + der_tlv(0x30, b''))))
+                # PKCS#8 wrappers: the nesting in the algorithm parameters, in the key OCTET STRING, and in an
+                # encrypted wrapper's parameters
+                alg = der_tlv(0x30, RSA_OID + b'\x05\x00')
+                out.append(('pkcs8 inner key depth %d' % depth, der_tlv(0x30, b'\x02\x01\x00' + alg + der_tlv(0x04, seq))))
+                out.append(('pkcs8 alg params depth %d' % depth,
+                            der_tlv(0x30, b'\x02\x01\x00' + der_tlv(0x30, RSA_OID + seq) + der_tlv(0x04, b'\x30\x00'))))
+                out.append(('spki alg params depth %d' % depth,
+                            der_tlv(0x30, der_tlv(0x30, RSA_OID + seq) + der_tlv(0x03, b'\x00\x30\x00'))))
+                out.append(('spki key bits depth %d' % depth, der_tlv(0x30, alg + der_tlv(0x03, b'\x00' + seq))))
+                enc = der_tlv(0x30, der_tlv(0x30, PBES2_OID + seq) + der_tlv(0x04, b'\x00' * 16))
+                out.append(('encrypted pkcs8 params depth %d' % depth, enc))
+                out.append(('PEM ENCRYPTED PRIVATE KEY params depth %d' % depth, pem_block(b'ENCRYPTED PRIVATE KEY', enc)))
+                out.append(('PEM PRIVATE KEY pkcs8 inner depth %d' % depth,
+                            pem_block(b'PRIVATE KEY', der_tlv(0x30, b'\x02\x01\x00' + alg + der_tlv(0x04, seq)))))
+    return out
+
+
 def import_targets():
     """name -> (callable on bytes, documented exception classes)"""
     import asyncssh
-    from asyncssh.asn1 import der_decode, ASN1DecodeError
+    from asyncssh.asn1 import der_decode, der_decode_partial, ASN1DecodeError
     doc_key = (asyncssh.KeyImportError, asyncssh.KeyEncryptionError)
     return {
         'import_private_key': (lambda d: asyncssh.import_private_key(d), doc_key),
@@ -760,6 +829,7 @@ def import_targets():
         'import_public_key': (lambda d: asyncssh.import_public_key(d), (asyncssh.KeyImportError,)),
         'import_certificate': (lambda d: asyncssh.import_certificate(d), (asyncssh.KeyImportError,)),
         'der_decode': (lambda d: der_decode(d), (ASN1DecodeError,)),
+        'der_decode_partial': (lambda d: der_decode_partial(d), (ASN1DecodeError,)),
     }
 
 
@@ -784,6 +854,8 @@ def fuzz_imports(rng, n, only=None):
     for hx in DER_SEEDS:
         inputs.append(bytes.fromhex(hx))
     inputs.append(b'-----BEGIN ( PRIVATE KEY-----\nAAAA\n-----END ( PRIVATE KEY-----\n')
+    deep = deep_der_inputs()
+    inputs += [d for _, d in deep]
     for kind, data in corpus:
         inputs.append(data)
         if data.startswith(b'-----') or data.startswith(b'---- '):
@@ -805,7 +877,7 @@ def fuzz_imports(rng, n, only=None):
                 inputs.append(parts[0] + b' ' + base64.b64encode(mutate(rng, blob)) + b' x\n')
             except Exception:                           # noqa
                 pass
-    findings, stats = [], {'ok': 0, 'documented': 0, 'undocumented': 0, 'calls': 0}
+    findings, stats = [], {'ok': 0, 'documented': 0, 'undocumented': 0, 'calls': 0, 'deep_der_inputs': len(deep)}
     for d in inputs:
         for name, (fn, doc) in targets.items():
             stats['calls'] += 1
